@@ -96,6 +96,7 @@ Section L.
     destruct n as [ | |c|bs|bs|cs|l0|a b| | |sol ml|inv ui|id c nm|g ic|b|alts icase|ng bw sg' eg' c|body mn mx gr egs ege|body mn mx gr];
       cbn [ir_results] in Hr; try (eapply oklen_results_of; exact Hr); try (eapply oklen_cond; exact Hr); try discriminate.
     - inversion Hr; subst. repeat constructor.
+    - inversion Hr; subst. repeat constructor.
     - destruct (leaf_code (negb fwd) (NByteSet bs)); [eapply oklen_results_of; exact Hr|discriminate].
     - destruct (leaf_code (negb fwd) (NCharSet cs)); [eapply oklen_results_of; exact Hr|discriminate].
     - eapply (cat_len f IHf fwd (length G) l0 [(p, G)]); eauto; try (repeat constructor).
